@@ -1,19 +1,30 @@
 #include "sessb_world.h"
 int main(void)
 {
-  world_init(1, 0);
-#if STEP >= 1
-  vf_sess_set_seq(SESS, 5, 7); vf_sess_set_flags(SESS, 1, 0, 0, 0, 0); vf_sess_set_state(SESS, 1);
+  uint8_t wp = 1, kind = K_APP, destroy = 0, noinc = 0; uint32_t custom = 0;
+#ifdef S_WP
+  wp = nondet_u8() & 1;
 #endif
-#if STEP >= 2
-  world_msg(0, K_APP);
+  world_init(wp, 0);
+  uint32_t n = nondet_u32(), r = nondet_u32();
+  VF_ASSUME(n >= 1 && n <= 0xfffffff0u && r >= 1 && r <= 0xfffffff0u);
+  vf_sess_set_seq(SESS, n, r); vf_sess_set_flags(SESS, 1, 0, 0, 0, 0); vf_sess_set_state(SESS, 1);
+#ifdef S_KIND
+  kind = nondet_u8(); VF_ASSUME(kind < NKIND);
 #endif
-#if STEP >= 3
-  uint32_t ok = vf_sb_send_p(&the_sess, MSGP(0), 0, 0, 0) & 1;
+#ifdef S_DESTROY
+  destroy = nondet_u8() & 1;
+#endif
+#ifdef S_CUSTOM
+  custom = nondet_u32(); noinc = nondet_u8() & 1;
+#endif
+  world_msg(0, kind);
+#ifdef S_PRE
+  if (nondet_u8() & 1) { a_has[0][T34] = 1; a_v34[0] = nondet_u32(); a_has[0][T52] = 1; a_v52[0] = 5; if (nondet_u8() & 1) { a_has[0][T43] = 1; a_v43[0] = 1; } }
+#endif
+  uint32_t ok = vf_sb_send_p(&the_sess, MSGP(0), destroy, custom, noinc) & 1;
   __CPROVER_assert(ok, "ok");
   __CPROVER_assert(e_n == 1, "enc");
-#endif
-  __CPROVER_assert(the_conn.f11.f0.f5 == 0 && the_conn.f11.f0.f4 == SESS, "writer pmodel");
   __CPROVER_assert(0, "reach");
   return 0;
 }
